@@ -36,7 +36,8 @@ theorem c08_policy_table :
 /-- **A cycle request on a faulted resource is refused and is the identity.**  It returns
 `ResourceFaulted`, produces no event at all (no driver call, no program activation, no statement)
 and leaves the whole state — variables, task states, images, driver/retain-store state, pending
-debug writes, clock, cycle counter, latch — exactly as it was. -/
+debug I/O writes, pending debugger variable / l-value writes (they stay queued, they are not
+applied), forced values, clock, cycle counter, latch — exactly as it was. -/
 theorem c08_refused (sem : Sem σ δ) (s : RState σ δ) (h : s.faulted = true) :
     executeCycle sem s = { st := s, evs := [], err := some .resourceFaulted } := by
   simp [executeCycle, h]
@@ -61,6 +62,10 @@ theorem c08_step_keeps_latch (sem : Sem σ δ) (s : RState σ δ) (h : s.faulted
   | dbgWrite a v => simp [step, h]
   | forceIo a v => simp [step, h]
   | releaseIo a => simp [step, h]
+  | varWrite k v => simp [step, h]
+  | lvalWrite k v => simp [step, h]
+  | forceVar k v => simp [step, h]
+  | releaseVar k => simp [step, h]
   | restart m => simp [Op.resets] at hop
   | clearFault => simp [Op.resets] at hop
 
@@ -104,6 +109,52 @@ theorem c08_latched_cycles (sem : Sem σ δ) (s : RState σ δ) (h : s.faulted =
   induction n with
   | zero => rfl
   | succ n ih => simp [List.replicate_succ, run, step, c08_refused sem s h, ih]
+
+/-- The queue operations of a history: what `enqueue_*_write` alone would make of the queues. -/
+def qVarStep (q : List (Nat × Int)) : Op → List (Nat × Int)
+  | .varWrite k v => targetSet q k v
+  | _ => q
+
+def qLvalStep (q : List (Nat × Int)) : Op → List (Nat × Int)
+  | .lvalWrite k v => q ++ [(k, v)]
+  | _ => q
+
+def queuedVar (ops : List Op) (q : List (Nat × Int)) : List (Nat × Int) := ops.foldl qVarStep q
+
+def queuedLval (ops : List Op) (q : List (Nat × Int)) : List (Nat × Int) := ops.foldl qLvalStep q
+
+/-- **Pending debugger writes do not reach a halted resource.**  From a faulted state, along
+every history without `restart` / `clear_fault` — in which a debugger may queue variable and
+l-value writes, force and release variables and I/O addresses at any point, and cycles are
+requested at any point — no variable changes, and the pending-write queues are exactly what the
+enqueue operations alone produce: no refused cycle (nor anything else) drains or applies them. -/
+theorem c08_latched_queue (sem : Sem σ δ) (s : RState σ δ) (h : s.faulted = true) (ops : List Op)
+    (hno : ∀ op ∈ ops, op.resets = false) :
+    (run sem s ops).store = s.store ∧ (run sem s ops).varQ = queuedVar ops s.varQ ∧
+    (run sem s ops).lvalQ = queuedLval ops s.lvalQ := by
+  induction ops generalizing s with
+  | nil => exact ⟨rfl, rfl, rfl⟩
+  | cons op ops ih =>
+    have hop := hno op (List.mem_cons_self ..)
+    have h1 := c08_step_keeps_latch sem s h op hop
+    have hq : (step sem s op).st.varQ = qVarStep s.varQ op ∧
+        (step sem s op).st.lvalQ = qLvalStep s.lvalQ op := by
+      cases op with
+      | cycle => simp [step, c08_refused sem s h, qVarStep, qLvalStep]
+      | watchdog =>
+        simp only [step, qVarStep, qLvalStep]
+        exact ⟨(applyFault_ctl sem s _ _).2.2.2.2.2.2.1, (applyFault_ctl sem s _ _).2.2.2.2.2.2.2⟩
+      | simFault =>
+        simp only [step, qVarStep, qLvalStep]
+        exact ⟨(applyFault_ctl sem s _ _).2.2.2.2.2.2.1, (applyFault_ctl sem s _ _).2.2.2.2.2.2.2⟩
+      | restart m => simp [Op.resets] at hop
+      | clearFault => simp [Op.resets] at hop
+      | _ => simp [step, qVarStep, qLvalStep]
+    have h2 := ih (step sem s op).st h1.1 (fun o ho => hno o (List.mem_cons_of_mem _ ho))
+    simp only [run, queuedVar, queuedLval, List.foldl_cons]
+    refine ⟨h2.1.trans h1.2.1, ?_, ?_⟩
+    · rw [h2.2.1, hq.1]; rfl
+    · rw [h2.2.2, hq.2]; rfl
 
 /-- **Until a restart**: `restart` (either mode) and `clear_fault` end the latch. -/
 theorem c08_restart_clears (sem : Sem σ δ) (s : RState σ δ) (op : Op) (h : op.resets = true) :
@@ -164,6 +215,10 @@ theorem c08_error_latches (sem : Sem σ δ) (s : RState σ δ) (op : Op) (e : Er
   | dbgWrite a v => simp [step] at h
   | forceIo a v => simp [step] at h
   | releaseIo a => simp [step] at h
+  | varWrite k v => simp [step] at h
+  | lvalWrite k v => simp [step] at h
+  | forceVar k v => simp [step] at h
+  | releaseVar k => simp [step] at h
   | restart m => simp [step] at h
   | clearFault => simp [step] at h
 
@@ -178,9 +233,10 @@ theorem c08_fault_ops (sem : Sem σ δ) (s : RState σ δ) :
   have h2 := c08_apply_fault_latches sem s .simulationFault (FaultDecision.fromFaultPolicy s.policy)
   exact ⟨rfl, rfl, h1.2.2.1, h1.1, h2.2.2.1, h2.1⟩
 
-/-- **Outcome of a cycle on a resource that is not faulted.**  With `ph` the result of the nine
-phases (driver reads, debug writes, forced I/O values, binding latch, tasks and background
-programs, binding publish, forced I/O values again, driver writes, retain save) run with first-failure semantics:
+/-- **Outcome of a cycle on a resource that is not faulted.**  With `ph` the result of the ten
+phases (pending debugger variable writes, driver reads, debug I/O writes, forced values, binding
+latch, tasks and background programs, binding publish, forced values again, driver writes, retain
+save) run with first-failure semantics:
 * if no phase fails the cycle succeeds, the latch stays open and the counter advances;
 * if a phase fails with `e` the cycle returns `e` and the state is exactly
   `record_fault` (= `apply_fault` with the fault policy's decision) applied to the state the
@@ -211,7 +267,29 @@ theorem c08_cycle_outcome (sem : Sem σ δ) (s : RState σ δ) (hs : s.faulted =
       (FaultDecision.fromFaultPolicy (runPhases (cyclePhases sem) s).st.policy)
     exact ⟨trivial, trivial, trivial, this.1, this.2.1⟩
 
-/-- **Fault sources, phase level.**  Whichever of the nine phases of the cycle is the first to
+/-- **… and are applied by the first cycle that is not refused** (after `restart` /
+`clear_fault`, or on a healthy resource): that cycle starts by applying the queued variable writes,
+then the queued l-value writes, in order, to the storage, and whatever happens in it afterwards —
+success or fault — both queues are empty when it returns. -/
+theorem c08_queue_drained (sem : Sem σ δ) (s : RState σ δ) (hs : s.faulted = false) :
+    (executeCycle sem s).st.varQ = [] ∧ (executeCycle sem s).st.lvalQ = [] ∧
+    (phaseVarWrites sem s).st.store = applyPokes sem (s.varQ ++ s.lvalQ) s.store ∧
+    cyclePhases sem = phaseVarWrites sem :: (cyclePhases sem).tail := by
+  have hq := cyclePhases_qempty sem s
+  have hout := c08_cycle_outcome sem s hs
+  refine ⟨?_, ?_, rfl, rfl⟩
+  all_goals
+    cases hr : (runPhases (cyclePhases sem) s).err with
+    | none => simp only [hr] at hout; rw [hout.2.1]; first | exact hq.1 | exact hq.2
+    | some e =>
+      simp only [hr] at hout
+      rw [hout.2.1]
+      simp only [recordFault]
+      first
+        | rw [(applyFault_ctl sem _ e _).2.2.2.2.2.2.1]; exact hq.1
+        | rw [(applyFault_ctl sem _ e _).2.2.2.2.2.2.2]; exact hq.2
+
+/-- **Fault sources, phase level.**  Whichever of the ten phases of the cycle is the first to
 fail — after any number of earlier phases succeeded — its error is what `execute_cycle` returns,
 the resource is faulted with that error as `last_fault`, and the state is `record_fault` applied
 to the state the failing phase left: no later phase runs (in particular a fault before the
@@ -262,7 +340,8 @@ theorem c08_fault_sources_complete (sem : Sem σ δ) (s : RState σ δ) (hs : s.
 theorem c08_phase_errors (sem : Sem σ δ) (s : RState σ δ) :
     (phaseRead sem s).err = (readDrivers sem (List.range sem.nDrivers) s.env s.io.inputs).err ∧
     (phaseDebug s).err = (applyWrites s.dbgQ s.io).2 ∧
-    (phaseForce s).err = (applyWrites s.forced s.io).2 ∧
+    (phaseVarWrites sem s).err = none ∧
+    (phaseForce sem s).err = (applyWrites s.forced s.io).2 ∧
     (phaseLatch sem s).err = (sem.latch s.io s.store).2 ∧
     (phaseTasks sem s).err =
       (match (sem.plan s.now s.store).2.2 with
@@ -271,8 +350,9 @@ theorem c08_phase_errors (sem : Sem σ δ) (s : RState σ δ) :
     (phasePublish sem s).err = (sem.publish s.store s.io).2 ∧
     (phaseWrite sem s).err = (writeDrivers sem (List.range sem.nDrivers) s.env s.io.outputs).err ∧
     (phasePersist sem s).err = (sem.persist s.now s.store s.env).2 := by
-  refine ⟨rfl, rfl, rfl, rfl, ?_, rfl, rfl, rfl⟩
-  cases h : (sem.plan s.now s.store).2.2 <;> simp [phaseTasks, h]
+  refine ⟨rfl, rfl, rfl, ?_, rfl, ?_, rfl, rfl, rfl⟩
+  · cases h : (applyWrites s.forced s.io).2 <;> simp [phaseForce, h]
+  · cases h : (sem.plan s.now s.store).2.2 <;> simp [phaseTasks, h]
 
 /-- A runtime error in **any** program of the plan — first, middle or last task, background
 program — is reported by the plan; the programs after it execute nothing. -/
@@ -614,6 +694,7 @@ def toy : Sem Nat Nat where
   publish := fun _ io => (io, none)
   persist := fun _ _ env => (env, none)
   reinit := fun _ _ => 0
+  poke := fun _ v _ => v.toNat
 
 def toyAddr : Addr := { area := .output, size := .byte, byte := 1, bit := 0, path := [1], wildcard := false }
 def toyBad : Addr := { area := .output, size := .word, byte := 0, bit := 0, path := [], wildcard := true }
@@ -622,7 +703,7 @@ def toyState : RState Nat Nat :=
   { faulted := false, lastFault := none, policy := .safeHalt, wdAction := .safeHalt,
     safe := [(toyBad, .byte 1), (toyAddr, .byte 90)],
     io := { inputs := [], outputs := [], memory := [], hier := [] }, store := 0, env := 0, dbgQ := [],
-    forced := [], now := 0, cycles := 0 }
+    forced := [], varQ := [], lvalQ := [], forcedVars := [], now := 0, cycles := 0 }
 
 /-- The hypotheses of the theorems above are satisfiable, and the witness of the repaired defect
 behaves: two cycles succeed, the third faults with `DivisionByZero`; although the first
@@ -640,17 +721,32 @@ example :
   intro s3 r
   exact ⟨rfl, rfl, rfl, rfl, rfl, rfl, rfl, rfl, rfl⟩
 
+/-- Pending debugger writes on the toy application (its `poke` overwrites the counter): queued
+while the resource is faulted they wait — the variable keeps its value 3 over refused cycles and
+the queue holds the (replaced) write — and the first cycle after `clear_fault` applies them: the
+counter is set to 0, the program runs (1) and the queues are empty although that cycle then faults
+in its publish phase (driver 0). -/
+example :
+    let f := (step toy (run toy toyState [.cycle, .cycle]) .cycle).st
+    let w := run toy f [.varWrite 7 5, .cycle, .lvalWrite 8 0, .varWrite 7 9, .cycle, .cycle]
+    let c := (step toy (step toy w .clearFault).st .cycle).st
+    f.faulted = true ∧ f.store = 3 ∧ w.faulted = true ∧ w.store = 3 ∧ w.varQ = [(7, 9)] ∧
+    w.lvalQ = [(8, 0)] ∧ c.store = 1 ∧ c.varQ = [] ∧ c.lvalQ = [] ∧
+    c.lastFault = some (.ioDriverWrite 0) := by
+  intro f w c
+  exact ⟨rfl, rfl, rfl, rfl, rfl, rfl, rfl, rfl, rfl, rfl⟩
+
 example : (∀ op ∈ [Op.cycle, .advance 5, .watchdog, .cycle, .setPolicy .halt, .simFault, .cycle],
     op.resets = false) := by decide
 
-example : cyclePhases toy = [phaseRead toy, phaseDebug, phaseForce, phaseLatch toy] ++ phaseTasks toy ::
-    [phasePublish toy, phaseForce, phaseWrite toy, phasePersist toy] := rfl
+example : cyclePhases toy = [phaseVarWrites toy, phaseRead toy, phaseDebug, phaseForce toy, phaseLatch toy] ++
+    phaseTasks toy :: [phasePublish toy, phaseForce toy, phaseWrite toy, phasePersist toy] := rfl
 
-/-- Hypotheses of `c08_fault_sources`: in the third cycle the four phases before the task phase
+/-- Hypotheses of `c08_fault_sources`: in the third cycle the five phases before the task phase
 succeed and the task phase fails. -/
 example :
     let s3 := run toy toyState [.cycle, .cycle]
-    let pre : List (Phase Nat Nat) := [phaseRead toy, phaseDebug, phaseForce, phaseLatch toy]
+    let pre : List (Phase Nat Nat) := [phaseVarWrites toy, phaseRead toy, phaseDebug, phaseForce toy, phaseLatch toy]
     s3.faulted = false ∧ (runPhases pre s3).err = none ∧
     (phaseTasks toy (runPhases pre s3).st).err = some .divisionByZero := by
   intro s3 pre
